@@ -10,6 +10,7 @@ Sigma-protocol completeness (`nisp2sec_complete`, `nispMultiSecrets_complete`, `
 supporting lemmas are in `ZkProofs/Lemmas/ClSigma.lean` and re-exported here.
 -/
 import ZkProofs.Lemmas.ClSigma
+import ZkProofs.Lemmas.ClRange
 set_option linter.unusedSectionVars false
 set_option linter.unusedVariables false
 namespace Zk.C14
@@ -71,8 +72,8 @@ theorem issuer_refuses (cs : Suite) (pk : PublicKey) (sk : SecretKey) (bases : L
   rcases zkpokVerify_tapeFree cs π C.value Ctv pk bases cpk U with ⟨b, hb⟩ | hp
   · cases b with
     | true => exact absurd (hb []) h
-    | false => rw [bind_of_ok (hb t)]; rfl
-  · rw [bind_run, hp t]
+    | false => rw [ClSigma.bind_of_ok (hb t)]; rfl
+  · rw [ClSigma.bind_run, hp t]
 
 /-! ### 3. Issuance completeness -/
 
@@ -178,8 +179,8 @@ theorem issuance_complete (hA : ArithOK) (cs : Suite) (hR : RangeComplete cs) (p
       (pick_nonneg hm R) (by simp [pick])
       (fun i hi => lt_of_lt_of_le (hmem i (Or.inr hi)) hlen) t₃
     have hext' : extOf C (some (pick msgs R)) pk bases (some R) t₃ = .ok (ext, t₃) := hext
-    rw [blindSign_eq, bind_of_ok hzk₃, not_true_if, bind_of_ok hext'] at hp
-    simp only [bind_panic_iff] at hp
+    rw [blindSign_eq, ClSigma.bind_of_ok hzk₃, not_true_if, ClSigma.bind_of_ok hext'] at hp
+    simp only [ClSigma.bind_panic_iff] at hp
     rcases hp with h | ⟨k, t1, hk', h | ⟨e, t2, he, h | ⟨r', t3, hr', h | ⟨d, t4, hd, h | ⟨bs, t5, hbs,
       h | ⟨v, t6, hv, h⟩⟩⟩⟩⟩⟩
     · simp [remaining] at h
@@ -187,9 +188,9 @@ theorem issuance_complete (hA : ArithOK) (cs : Suite) (hR : RangeComplete cs) (p
     · exact randomBits_ne_panic _ _ h
     · obtain ⟨-, -, hg⟩ := drawE_elim _ _ _ _ he
       obtain ⟨x, hx, -⟩ := invMod_of_gcd hA (phi_gt_one hk.hp hk.hq hk.hpq) hg
-      rw [ofOpt_run hx] at h; cases h
+      rw [ClSigma.ofOpt_run hx] at h; cases h
     · rw [pw_run_nonneg hA hN (randomBits_elim hr').1] at h; cases h
-    · obtain ⟨hd', -⟩ := (ofOpt_ok_iff _ _ _ _).1 hd
+    · obtain ⟨hd', -⟩ := (ClSigma.ofOpt_ok_iff _ _ _ _).1 hd
       obtain ⟨hd0, -, -⟩ := hA.invMod_some _ _ _ (phi_gt_one hk.hp hk.hq hk.hpq) hd'
       rw [pw_run_nonneg hA hN hd0] at h; cases h
     · cases h
@@ -280,8 +281,8 @@ theorem update_complete (hA : ArithOK) (cs : Suite) (pk : PublicKey) (sk : Secre
   have hext' : extOf C (some (pick msgs' R)) pk bases (some R) t = .ok (ext, t) := hext
   refine ⟨⟨β.e, β.rprime, (ext.value * (pk.b ^ β.rprime.toNat % pk.N) * pk.c) ^ d.toNat % pk.N⟩,
     ?_, rfl, rfl, ?_⟩
-  · rw [updateSignature_eq, bind_of_ok hext', bind_of_ok (ofOpt_run hd t),
-      bind_of_ok (pw_run_nonneg hA hN hrp t), bind_of_ok (pw_run_nonneg hA hN hd0 t)]
+  · rw [updateSignature_eq, ClSigma.bind_of_ok hext', ClSigma.bind_of_ok (ClSigma.ofOpt_run hd t),
+      ClSigma.bind_of_ok (pw_run_nonneg hA hN hrp t), ClSigma.bind_of_ok (pw_run_nonneg hA hN hd0 t)]
     rfl
   · have hfull : ext.value ≡ rep bases msgs' (List.range msgs'.length) * pk.b ^ C.randomness.toNat
         [ZMOD pk.N] := by
@@ -482,5 +483,73 @@ theorem zkpok_mismatch (hA : ArithOK) {cs : Suite} {π : ZKPoK} {C C' : Int} {Ct
           hashInts (U.map (fun i => bases.getD i 1) ++ [pk.b, C', π.proofMsgs.t]) →
         ConcatAmbiguity ∨ ClHashCollision) :=
   zkpok_mismatch_commitment hA hN hbu hau hCu (zkpokVerify_true_elim h).1 (zkpokVerify_true_elim h').1
+
+/-- **Limit of the gate (finding).** `ZKPoK::verify_proof` is a conjunction of independent checks
+(`ClSigma.zkpokVerify_true_iff`): the per-attribute proofs of knowledge, their range proofs and the
+proof / range proof for the randomness are verified against commitments carried INSIDE the proof, and
+nothing ties those commitments (nor `range_proof.E`) to the commitment `C` being signed. Formally: the
+per-attribute / range / randomness parts of ANY accepted proof `π'` (for another commitment `C'`, i.e. for
+other attribute values and another randomness, same bases and positions) can be transplanted into a proof
+`π` accepted for `C`, and the hybrid is accepted for `C`. Hence what gates the issuer with respect to `C`
+is `proof_commited_msgs` (and `proof_C_Ctrusted`) only; the range statements `0 ≤ m_i < 2^lm`,
+`0 ≤ r < 2^ln` are proved about unrelated values. -/
+theorem zkpok_parts_unbound {cs : Suite} {π π' : ZKPoK} {C C' : Int} {Ctv Ctv' : Option Int}
+    {pk : PublicKey} {bases : List Int} {cpk cpk' : Option CommitmentPK} {U : List Nat}
+    {t t₁ t' t₁' : List Draw}
+    (h : zkpokVerify cs π C Ctv pk bases cpk U t = .ok (true, t₁))
+    (h' : zkpokVerify cs π' C' Ctv' pk bases cpk' U t' = .ok (true, t₁')) :
+    zkpokVerify cs ⟨π.proofCCtrusted, π.proofMsgs, π'.proofsMi, π'.rangeProofsMi, π'.proofR,
+      π'.rangeProofR⟩ C Ctv pk bases cpk U [] = .ok (true, []) := by
+  obtain ⟨-, hT, h1, -, -⟩ := zkpokVerify_true_iff.1 h
+  obtain ⟨-, -, -, h2', h3'⟩ := zkpokVerify_true_iff.1 h'
+  refine zkpokVerify_true_iff.2 ⟨rfl, hT, h1, ?_, h3'⟩
+  have e := zkMiVerifyLoop_congr cs pk bases
+    (π := ⟨π.proofCCtrusted, π.proofMsgs, π'.proofsMi, π'.rangeProofsMi, π'.proofR, π'.rangeProofR⟩)
+    (π' := π') rfl rfl U 0
+  rw [e]
+  exact h2'
+
+/-! ### 7. Discharging the range-proof hypothesis (C16) and the generated suites -/
+
+/-- `RangeComplete` follows from the C16 completeness theorem `Zk.ClRange.range_complete`. -/
+theorem rangeComplete (hA : ArithOK) (cs : Suite) : RangeComplete cs := by
+  intro x c g h n lo hi t t' π hn hg hh hx hr _ hC _ _ _ _ hp
+  obtain ⟨u, hu⟩ := Zk.ClRange.rep_of_gcd hn hg
+  obtain ⟨v, hv⟩ := Zk.ClRange.rep_of_gcd hn hh
+  have hc : Zk.ClRange.Rep n c.value (u ^ x * v ^ c.randomness) := by
+    have h1 := (hu.pow x.toNat).mul (hv.pow c.randomness.toNat)
+    have hx' : u ^ x = u ^ x.toNat := by
+      conv_lhs => rw [← Int.toNat_of_nonneg hx]
+      exact zpow_natCast u _
+    have hr' : v ^ c.randomness = v ^ c.randomness.toNat := by
+      conv_lhs => rw [← Int.toNat_of_nonneg hr]
+      exact zpow_natCast v _
+    rw [hx', hr']
+    unfold Zk.ClRange.Rep at *
+    rw [← h1]
+    exact (ZMod.intCast_eq_intCast_iff _ _ _).2 (by rw [Zk.ClRange.natCast_toNat hn]; exact hC)
+  exact (Zk.ClRange.range_complete hA cs hn hu hv hc hp []).1
+
+/-- **Blind issuance is complete for every hidden set** — `issuance_complete` with the range-proof
+hypothesis discharged: it only assumes `ArithOK`. -/
+theorem issuance_complete' (hA : ArithOK) (cs : Suite) (pk : PublicKey)
+    (sk : SecretKey) (bases msgs : List Int) (U R : List Nat) (hk : KeysOK pk sk)
+    (hau : ∀ a ∈ bases, Int.gcd a pk.N = 1) (hlen : msgs.length ≤ bases.length)
+    (hm : ∀ m ∈ msgs, 0 ≤ m ∧ m < 2 ^ cs.lm)
+    (hperm : (U ++ R).Perm (List.range msgs.length)) (hU : msgs.length = 1 → U ≠ [])
+    (C : Commitment) (t₁ t₁' : List Draw)
+    (hcommit : commitWithPk cs msgs pk bases (some U) t₁ = .ok (C, t₁'))
+    (Ct : Option Commitment) (cpk : Option CommitmentPK)
+    (hT : ∀ ct k, Ct = some ct → cpk = some k → TrustedOK cs msgs U ct k)
+    (π : ZKPoK) (t₂ t₂' : List Draw)
+    (hgen : zkpokGen cs msgs C Ct pk bases cpk U t₂ = .ok (π, t₂')) :
+    zkpokVerify cs π C.value (Ct.map Commitment.value) pk bases cpk U [] = .ok (true, []) ∧
+    (∀ t₃, blindSign cs pk sk bases π (some (pick msgs R)) C (Ct.map Commitment.value) cpk U (some R) t₃
+        ≠ .panic) ∧
+    (∀ t₃ β t₃', blindSign cs pk sk bases π (some (pick msgs R)) C (Ct.map Commitment.value) cpk U
+        (some R) t₃ = .ok (β, t₃') →
+      verifyMultiattr cs (unblindSign β C) pk bases msgs [] = .ok (true, [])) :=
+  issuance_complete hA cs (rangeComplete hA cs) pk sk bases msgs U R hk hau hlen hm hperm hU C t₁ t₁'
+    hcommit Ct cpk hT π t₂ t₂' hgen
 
 end Zk.C14
